@@ -51,6 +51,11 @@ func spanReachesResult(fn *ssa.Function, c *ssa.Call) bool {
 		case *ssa.Convert:
 			return dep(x.X, seen)
 		case *ssa.Extract:
+			// the boolean component of a (span, found) result says whether a match exists, which does not depend on
+			// the match mode; only the span components are leftmost-first
+			if bt, ok := x.Type().Underlying().(*types.Basic); ok && bt.Kind() == types.Bool {
+				return false
+			}
 			return dep(x.Tuple, seen)
 		case *ssa.MakeInterface:
 			return dep(x.X, seen)
